@@ -8,6 +8,14 @@ from vlib import Infra
 PROPS = {}
 
 
+def expect_counterexample(run, module, cfg, needle, workers=8, xmx="8g"):
+    """Anti-vacuity: the planted-bug configuration of a model must produce a counterexample."""
+    r = vlib.tlc_model(run, module, cfg=cfg, workers=workers, xmx=xmx, expect_ok=False)
+    if r["ok"] or needle not in r["out"]:
+        raise Infra("anti-vacuity: %s/%s should report '%s'" % (module, cfg, needle))
+    run.extra.setdefault("planted_bug_counterexamples", []).append("%s/%s: %s" % (module, cfg, needle))
+
+
 def prop(pid):
     def deco(fn):
         PROPS[pid] = fn
@@ -130,10 +138,49 @@ def c03(run):
 WRITER_MODEL_NOTE = "WsWriterImpl (the real algorithm with scaled header thresholds) is explored exhaustively by TLC against the same monitor that judges the real traces"
 
 
+def replay_writer(run, b):
+    """R binding: behaviours of WsWriterImpl (real header constants) drawn by TLC -simulate are
+    replayed call by call into the real Writer; event and struct are compared after every call.
+    Differences are MODEL-DRIFT (exit 0); the real traces are judged by the monitor as usual."""
+    import tlaparse
+    simdir = os.path.join(run.work, "sim-writer")
+    files = vlib.tlc_simulate(run, "WsWriterImpl", "WsWriterImpl_real", 60 if run.tier == "quick" else 600, 15, simdir)
+    inp = os.path.join(run.work, "r06-in.ndjson")
+    with open(inp, "w") as f:
+        for i, path in enumerate(files):
+            sts = tlaparse.behaviour(path)
+            if len(sts) < 2:
+                continue
+            w0, d0 = sts[0]["w"], sts[0]["d"]
+            steps = []
+            for st in sts[1:]:
+                ev = dict(st["lastEv"])
+                ev["w"] = {k.capitalize() if k in ("raw", "buf", "n", "fseq", "dirty", "err", "noflush", "comp", "side", "op") else k: v for k, v in st["w"].items()}
+                steps.append(ev)
+            f.write(json.dumps(dict(key="sim/%d/%d" % (run.seed, i), side=w0["side"], op=w0["op"], raw=w0["raw"], failAt=d0["failAt"], steps=steps)) + "\n")
+    e = {"R06_IN": inp}
+    if getattr(run, "only", None):
+        e["VERIF_ONLY"] = run.only
+    d, meta = run.drive(b, "r06", env=e)
+    run.extra.update(meta.get("extra") or {})
+    nt, ne, rej = vlib.tlc_traces(run, "TraceWsWriter", meta["files"]["traces"])
+    run.cov["traces_validated_against_impl"] += nt
+    for key, line, lines, why in rej:
+        run.candidate(key, "replayed model behaviour: real trace rejected by TraceWsWriter at event %d: %s" % (line, why),
+                      lambda lines=lines: (True, dict(trace=[json.loads(l) for l in lines][:60])))
+    for p in meta["files"]["records"] or []:
+        for l in open(p):
+            r = json.loads(l)
+            if r["firstDiff"] >= 0:
+                run.drift.append("%s step %d: %s" % (r["key"], r["firstDiff"], r["what"]))
+
+
 @prop("C06")
 def c06(run):
     b = run.build()
     vlib.tlc_model(run, "WsWriterImpl", workers=12, xmx="12g")
+    expect_counterexample(run, "WsWriterImpl", "WsWriterImpl_bug_readfrom", "Invariant Refines is violated")
+    replay_writer(run, b)
     run.assumptions += [WRITER_MODEL_NOTE,
                         "fragment boundaries, an empty final frame after only empty writes, and ReadFrom on an exactly full buffer are left open (DESIGN 6.2)",
                         "payloads are position-coded; a frame's payload is matched against the interval of caller bytes by the harness' own codec"]
@@ -150,6 +197,7 @@ def c16(run):
     traces_check(run, b, "c16w", "TraceWsWriter")
     run.assumptions += [READER_NOTE, READER_MODEL_NOTE]
     vlib.tlc_model(run, "WsReaderImpl", cfg="WsReaderImpl_cut", workers=12, xmx="12g")
+    expect_counterexample(run, "WsReaderImpl", "WsReaderImpl_bug_cut", "Invariant Refines is violated", workers=12, xmx="12g")
     traces_check(run, b, "c16r", "TraceWsReader")
     return run.finish("fault_enumeration")
 
@@ -158,6 +206,7 @@ def c16(run):
 def c18(run):
     b = run.build()
     vlib.tlc_model(run, "WsWriterImpl", workers=12, xmx="12g")
+    expect_counterexample(run, "WsWriterImpl", "WsWriterImpl_bug_reset", "Invariant ResetIsFresh is violated")
     run.assumptions += [WRITER_MODEL_NOTE + " (invariant ResetIsFresh: after Reset the struct equals a new one)",
                         "the fresh twin is built with NewWriterSize(Size()); when that constructor cannot give the same Size() the lock-step comparison is skipped and only the monitor judges the suffix"]
     traces_check(run, b, "c18w", "TraceWsWriter")
@@ -170,6 +219,7 @@ def c18(run):
 def c08(run):
     b = run.build()
     vlib.tlc_model(run, "CtlWriterImpl", workers=4)
+    expect_counterexample(run, "CtlWriterImpl", "CtlWriterImpl_bug", "Invariant CtlRefines is violated", workers=4)
     run.assumptions += ["control writer: limit 125 for must-fail; must-succeed only while the cumulative total stays within the documented capacity"]
     traces_check(run, b, "c08w", "TraceWsWriter")
     run.assumptions += ["replies are decoded and unmasked by the harness' own codec; WsControl!ControlReply is the oracle, using WsCheck!Broken with the peer's state for 'the peer's own header check accepts it'",
